@@ -243,7 +243,7 @@ def run(chk):
             got = "returns normally" if rets else "raises %s" % [e.cls for s_, e, t in excs]
         r5.expect(bool(ok), "_raise_errors(%r) -> %s" % (line, want or "no error"), "Client._raise_errors:%s" % line.decode().split(" ")[0], "for the reply line %r _raise_errors %s; documented: %s" % (line, got, ("raise " + want) if want else "no error"), fn=re_fn, node=re_fn.node)
     direct, readers = exchange.recv_reaching_functions(prog)
-    for f in exchange.exchange_functions(prog):
+    for f in exchange.reading_exchange_functions(prog):
         al = exchange.local_reader_aliases(f, readers) | set(readers)
         reads = [n for n in walk_no_nested(f.node) if isinstance(n, ast.Assign) and isinstance(n.value, ast.Call) and isinstance(n.value.func, ast.Name) and n.value.func.id in al and isinstance(n.targets[0], ast.Tuple) and len(n.targets[0].elts) == 2 and isinstance(n.targets[0].elts[1], ast.Name)]
         r5.expect(len(reads) >= 1, "%s reads reply lines" % f.qualname, "%s:no-line-reads" % f.qualname, "no reply line is read in %s" % f.qualname, fn=f)
